@@ -260,21 +260,38 @@ func (r *LogValueRef) getOffsetDataValue(log *types.Log) []byte {
 	//		- reading the `value_length` from `data[internal_offset:internal_offset+WORD]`
 	//		- reading the `value` from `data[internal_offset+WORD:internal_offset+WORD+value_length]`
 	//
+	// Every read is bounds-checked: if the offset word, the length word or the announced length
+	// cannot be part of the log data, the log is malformed and no value is returned (as for a
+	// missing topic). The allocation is therefore bounded by the size of the log data.
+	dataLen := uint64(len(log.Data))
 	dataOffset := r.Offset - 4
 
 	offsetStartByte := dataOffset * Word
-
+	if offsetStartByte > dataLen || dataLen-offsetStartByte < Word {
+		return nil
+	}
 	x := log.Data[offsetStartByte : offsetStartByte+Word]
 
-	lengthByteOffset := new(big.Int).SetBytes(x).Uint64()
+	lengthByteOffsetInt := new(big.Int).SetBytes(x)
+	if !lengthByteOffsetInt.IsUint64() {
+		return nil
+	}
+	lengthByteOffset := lengthByteOffsetInt.Uint64()
+	if lengthByteOffset > dataLen || dataLen-lengthByteOffset < Word {
+		return nil
+	}
 	y := log.Data[lengthByteOffset : lengthByteOffset+Word]
-	length := new(big.Int).SetBytes(y).Uint64()
+	lengthInt := new(big.Int).SetBytes(y)
+	if !lengthInt.IsUint64() || lengthInt.Uint64() > dataLen {
+		return nil
+	}
+	length := lengthInt.Uint64()
 	value := make([]byte, length)
 	startByte := lengthByteOffset + Word
 	endByte := startByte + length
 
-	if startByte < uint64(len(log.Data)) {
-		availableEnd := uint64(len(log.Data))
+	if startByte < dataLen {
+		availableEnd := dataLen
 		if endByte < availableEnd {
 			availableEnd = endByte
 		}
